@@ -51,4 +51,12 @@ PROPS = {
         "level_text": "Proof over all finite histories (sends, slow peers, send failures, peer drops, extra connection attempts, resizes, in any interleaving) that what a PAIR peer / each PUSH pipe is handed and what PAIR/PULL Recv returns is, in order, a subsequence of what was accepted / read — no duplication, reordering or invention under any fault sequence — that a second PAIR connection is refused leaving the state unchanged and a new one admitted after the peer has gone, and that the PUSH scheduler step is enabled whenever a message is queued and a pipe ready; for write-queue length 0 the negation of progress is proved of the model (known finding D7). The machines are run against protocol/(x)pair, (x)push, (x)pull on random histories (queue lengths 0-3 and 128), plus real sockets with concurrent senders.",
         "level_note": COMMON_NOTE + "Completion of Send 'whenever a peer is able' is proved as enabledness of the hand-off step (scheduler fairness assumed); with several Recv calls blocked at once the wake-up order after a resize is a runtime race and is excluded from the driven histories.",
     },
+    "C05": {
+        "obl": ["Obl.Hop"],
+        "sites": ["protocol/rep", "protocol/respondent", "protocol/xrep", "protocol/xrespondent"],
+        "assumptions": ["atomic-step granularity; Go channel wait queues are FIFO; select picks any ready case (modelled as a set of outcomes)"],
+        "technique": "Lean 4 state machine for rep/respondent/xrep/xrespondent (contexts, per-pipe reply queues, routing-header parser with hop parameters regenerated from the source) with a ghost record of every reply; inductive invariant over all histories; machine compared step by step with the four real protocols through virtual pipes",
+        "level_text": "Proof by induction over all finite histories (requests from any pipes with any routing headers, Recv/Send on any number of contexts, slow and failing reply pipes, the requesting pipe closing at any moment, contexts opened and closed) that every reply handed to a pipe went to the pipe of the request it answers with exactly that request's routing header, that each context's backtrace is that of its own last Recv, that Send with nothing pending fails with protocol-state and no effect, that a reply to a departed connection is discarded, and that raw sockets route by the first header word; the same executable machine is compared with protocol/rep, respondent, xrep, xrespondent on random histories and an independent oracle checks each transmitted reply against the request it answers.",
+        "level_note": COMMON_NOTE + "Chains of devices are covered as compositions of single hops (C09 proves the per-hop header algebra); the end-to-end device runs are in C09's harness.",
+    },
 }
